@@ -86,6 +86,8 @@ def run(ctx):
                 bad = 'the transposed view of a %d x %d x %d tensor reports the shape %s' % (C, R, T, d.get('@shape_transposed'))
             elif not bad and d.get('@shape_matrix') and (d['@shape_matrix'][:4] != [str(R), str(C), '1', str(R * C)] or (len(d['@shape_matrix']) > 4 and d['@shape_matrix'][4:] != [str(R), str(C), '1'])):
                 bad = 'a %d x %d matrix reports the shape %s' % (R, C, d.get('@shape_matrix'))
+            if not bad and '@transposed_matrix' in d and d['@transposed_matrix'] != [x for j in range(C) for i in range(R) for x in (str(i * C + j), str(i * C + j))]:
+                bad = 'the transposed view of a %d x %d matrix does not expose (i,j) as (j,i) through its two-index accessors' % (C, R)
             if bad:
                 ctx.violation('layout', bad, {'case': line, 'impl': d})
         for line in waff:
